@@ -32,6 +32,8 @@ type job struct {
 	// Persist end to end only: what the target file held before this call
 	// ("" = absent, longer | shorter | equal = a previous generation of that length relative to the new bytes)
 	Prev string `json:"previous,omitempty"`
+	// Persist end to end only: the response names the file relative (else absolute)
+	Rel bool `json:"relative_name,omitempty"`
 }
 
 type cfgT struct {
@@ -41,6 +43,8 @@ type cfgT struct {
 	// Persist end to end only: the previous generation was written by an earlier Persist call
 	// into the same directory (otherwise by the harness directly)
 	PrevViaPersist bool `json:"previous_via_persist,omitempty"`
+	// Persist end to end only: dir_utils.SetGlobalwd was called (SDK mode)
+	GlobalWd bool `json:"global_wd,omitempty"`
 	// the post-processor is the REAL golang.GoBackend.PostProcess (gofmt of *.go files) instead of the
 	// harness' own "content#path"; injected pp failures still come from the wrapper
 	RealPP bool `json:"real_go_backend,omitempty"`
@@ -129,14 +133,23 @@ func (c cfgT) histToks() string {
 			sb.WriteString(" " + j.Prev)
 		}
 	}
+	loc := ""
+	if c.GlobalWd {
+		loc = " global-wd"
+	}
+	for k, j := range c.Jobs {
+		if j.Rel {
+			loc += fmt.Sprintf(" rel:%d", k)
+		}
+	}
 	if !any {
-		return ""
+		return loc
 	}
 	via := " previous(direct):"
 	if c.PrevViaPersist {
 		via = " previous(persist):"
 	}
-	return via + sb.String()
+	return loc + via + sb.String()
 }
 
 func (c cfgT) failPP(k int) bool { return c.HasPP && (c.Jobs[k].Fail == "p" || c.Jobs[k].Fail == "b") }
@@ -160,7 +173,7 @@ type injErr struct {
 func (e *injErr) Error() string { return fmt.Sprintf("injected %s failure of job %d", e.stage, e.job) }
 
 var codes = map[string]string{
-	"dispatch": "di", "acquired": "ac", "err-received": "er", "early-return": "ey", "spawn": "sp",
+	"dispatch": "di", "acquired": "ac", "err-received": "er", "early-return": "ey", "spawn": "sp", "spawned": "sd",
 	"w-start": "ws", "w-postprocessed": "wp", "w-written": "ww", "w-err-send": "we", "w-err-sent": "wt",
 	"w-exit": "wx", "w-released": "wr", "final-wait": "fw", "final-waited": "fd", "final-err": "fe", "final-nil": "fn",
 }
@@ -581,6 +594,8 @@ var viaPoints = map[string][]string{
 	"wt": {"w-err-send"},
 	"wr": {"w-exit"},
 	"rt": {"early-return", "final-err", "final-nil"},
+	"nx": {"spawned"},
+	"sd": {"spawn"},
 }
 
 func targetHit(target, kind string) bool {
@@ -596,6 +611,7 @@ func targetHit(target, kind string) bool {
 // force executes forced steps ("g" = one release, "g>target" = release until g is parked at target).
 // Returns "" when all steps were followed, otherwise the reason and position of the divergence.
 func (r *runner) force(steps []string, long time.Duration) string {
+	overshoot := false
 	for i, st := range steps {
 		gs, target := st, ""
 		if j := strings.Index(st, ">"); j >= 0 {
@@ -616,8 +632,16 @@ func (r *runner) force(steps []string, long time.Duration) string {
 				return fmt.Sprintf("diverged@%d:%s:returned", i, st)
 			}
 			p := r.parked[g]
+			if hops == 0 && overshoot && target == "nx" && targetHit("nx", p.kind) {
+				overshoot = false // already there: the build has no trace point right after the go statement
+				break
+			}
 			if hops > 0 {
 				if targetHit(target, p.kind) {
+					break
+				}
+				if target == "sd" && targetHit("nx", p.kind) {
+					overshoot = true
 					break
 				}
 				ok := false
